@@ -580,6 +580,18 @@ def m_auth(hist, rec):
         if c["sender"] == bech32.hook_account(pc["ibc_channel_id"], nc[role], pc["account_address_prefix"]):
             report(hist, "C09", "hook_derivation", {"variant": var, "refused": True},
                    "%s from the ibc-hooks account of the configured channel and address was refused as unauthorized" % var, rec)
+    # a message variant outside the modelled interface (the source declares one the authorization matrix, the halted
+    # list and the panic-freedom theorems do not speak about): any success is reported against the properties whose
+    # statements quantify over "every message"
+    from .iface import KNOWN_EXEC
+    if c["entry"] == "execute" and var not in KNOWN_EXEC and isinstance(c["msg"], dict) and len(c["msg"]) == 1 and c["outcome"] == "ok":
+        if c["sender"] != admin:
+            report(hist, "C08", "unknown_message", {"variant": var},
+                   "message %s, which the authorization matrix does not list, succeeded for %s (not the admin)" % (var, c["sender"]), rec)
+        if getattr(hist, "halted_by_history", True) and rec["committed"] and a is not None and (
+                state(a) != state(b) or a["ledger"]["bal"].get(su.contract) != b["ledger"]["bal"].get(su.contract)):
+            report(hist, "C10", "unknown_message", {"variant": var},
+                   "message %s changed totals or balances while the contract was halted" % var, rec)
     # C10
     if cfg(b)["stopped"] and var in HALTED_VARIANTS and c["outcome"] != "err":
         report(hist, "C10", "halted_blocks", {"variant": var, "outcome": c["outcome"]}, "%s did not fail while halted" % var, rec)
